@@ -226,16 +226,6 @@ def run(ctx):
     ]
     rng = random.Random(ctx.seed * 7919 + 10)
 
-    if ctx.replay:
-        # re-run exactly the recorded session through the code and the trace specification
-        rec = json.load(open(ctx.replay))
-        job = dict(rec["case"]["job"], sid=0, trace_errors=True)
-        cases = run_sessions([job], nproc=1)
-        v = ctx.judge("Aliasing_Trace", [strip_case(c) for c in cases], name="replay", stateful=True)
-        handle(ctx, cases, v, "replay")
-        ctx.note("replayed %s: verdict %s %s" % (ctx.replay, v.get(0), ctx.judge_extra.get(0)))
-        return
-
     # development aid (mutation testing): VERIF_FOCUS=f1,f2 restricts R/T to these functions and skips M
     focus = set(filter(None, os.environ.get("VERIF_FOCUS", "").split(",")))
     if focus:
@@ -381,6 +371,16 @@ def replay_part(ctx, rng, focus):
     for k, _cl, _p in ctx.violations:
         keys[k] = keys.get(k, 0) + 1
     ctx.extra["violation_keys"] = keys
+
+
+def replay(ctx, rec):
+    """re-run exactly the recorded session through the real library and the trace specification"""
+    job = dict(rec["case"]["job"], sid=0, trace_errors=True)
+    cases = run_sessions([job], nproc=1)
+    v = ctx.judge("Aliasing_Trace", [strip_case(c) for c in cases], name="replay", stateful=True)
+    handle(ctx, cases, v, "replay")
+    ctx.sample({"replayed": rec.get("clause"), "key": rec.get("key"), "verdict": v.get(0), "where": ctx.judge_extra.get(0)})
+    ctx.note("replayed: verdict %s %s" % (v.get(0), ctx.judge_extra.get(0)))
 
 
 META = {
